@@ -405,3 +405,30 @@ def solve_traces(ctx, sources):
         if gl:
             ctx.sample({'trace_event': {k: v for k, v in gl[0][1][-1].items() if k not in ('flag', 'drift')}})
     return tot
+
+
+# --------------------------------------------------------------------------------------
+COST_CFG = '\n'.join(['CONSTANTS L = 1', 'INIT TraceInit', 'NEXT TraceNext', 'VIEW TraceView', 'CHECK_DEADLOCK FALSE', 'POSTCONDITION TraceAccepted', ''])
+
+
+def cost_traces(ctx, sources, max_events=1500):
+    """prism.cost events (one sub-trace per PRISM object) against Trace_HardCore.tla"""
+    tot = 0
+    for name, evs, info in sources:
+        cv = [e for e in evs if e['ev'] == 'prism.cost' and 'pairs' in e]
+        groups, order = {}, []
+        for e in cv:
+            o = (e.get('pid'), e['obj'])
+            if o not in groups:
+                groups[o] = []
+                order.append(o)
+            if len(groups[o]) < max_events:
+                groups[o].append(e)
+        gl = [(o, groups[o]) for o in order]
+        a, b = validate(ctx, 'Trace_HardCore', COST_CFG, gl, 'trace.HardCore.' + name)
+        tot += a
+        hard = sum(1 for e in cv for p in e['pairs'] if p['ncore'] > 0)
+        ctx.stage('trace.HardCore.' + name, prism_objects=len(gl), objects_accepted=a, cost_evaluations_accepted=b, pair_evaluations_with_core_points=hard, source=info)
+        if gl:
+            ctx.sample({'trace_event': gl[0][1][-1]})
+    return tot
